@@ -80,8 +80,10 @@ where
             path: root.to_path_buf(),
             source: source.into(),
         })?;
-        let root = self.load_canonical(canonical).map_err(|error| match error {
-            | SourceLoadError::Read { source, .. } => {
+        // Only the failure to read the root itself is the root's: an unreadable companion
+        // signature keeps its own path.
+        let root = self.load_canonical(canonical.clone()).map_err(|error| match error {
+            | SourceLoadError::Read { path, source } if path == canonical => {
                 SourceLoadError::RootPath { path: root.to_path_buf(), source }
             }
             | error => error,
@@ -175,8 +177,10 @@ where
         };
         let canonical =
             SourcePath::identity(&requested).map_err(|source| import_error(source.into()))?;
-        let imported = self.load_canonical(canonical).map_err(|error| match error {
-            | SourceLoadError::Read { source, .. } => import_error(source),
+        // Only the failure to read the requested file is this site's: an unreadable companion
+        // signature of the provider keeps its own path.
+        let imported = self.load_canonical(canonical.clone()).map_err(|error| match error {
+            | SourceLoadError::Read { path, source } if path == canonical => import_error(source),
             | error => error,
         })?;
         Ok(self.imports.alloc(SourceImport {
